@@ -8,6 +8,21 @@ theorem mapIdxCtx_length (g : Nat → TypeId → Tok → Tok) (top : TypeId) (l 
     (mapIdxCtx g top l).length = l.length := by
   simp [mapIdxCtx]
 
+/-- the enclosing types depend on the shapes only -/
+theorem ctxAux_shape : ∀ (l l' : List Tok) (st : List TypeId),
+    l.map Tok.shape = l'.map Tok.shape → ctxAux st l = ctxAux st l'
+  | [], [], _, _ => rfl
+  | [], _ :: _, _, h => by simp at h
+  | _ :: _, [], _, h => by simp at h
+  | a :: l, b :: l', st, h => by
+    simp only [List.map_cons, List.cons.injEq] at h
+    obtain ⟨hab, hl⟩ := h
+    cases a <;> cases b <;> simp [Tok.shape] at hab <;>
+      simp [ctxAux, hab, ctxAux_shape l l' _ hl]
+
+theorem sameMarkup_tyOf (S : Schema) (a b : Node) (h : a.sameMarkup b = true) : S.tyOf a = S.tyOf b := by
+  cases a <;> cases b <;> simp [Node.sameMarkup] at h <;> simp [Schema.tyOf, Node.tyOr, h]
+
 theorem mapIdxCtx_getD (g : Nat → TypeId → Tok → Tok) (top : TypeId) (l : List Tok) (i : Nat)
     (hi : i < l.length) :
     (mapIdxCtx g top l).getD i Tok.cl = g i ((ctxOf top l).getD i 0) (l.getD i Tok.cl) := by
@@ -83,5 +98,16 @@ theorem retype_arith (L : List Tok) (o c : Tok) (pos size : Nat) (hsz : 2 ≤ si
   · simp only [List.append_assoc]
     rw [List.getElem?_append_right (by omega)]
     simp [hA]
+
+/-- an index/context-wise map that is the identity outside a window leaves the tokens there alone -/
+theorem mapIdxCtx_outside (g : Nat → TypeId → Tok → Tok) (top : TypeId) (l : List Tok) (f t : Nat)
+    (hout : ∀ i p tok, ¬ (f ≤ i ∧ i < t) → g i p tok = tok) (i : Nat) (hi : ¬ (f ≤ i ∧ i < t)) :
+    (mapIdxCtx g top l)[i]? = l[i]? := by
+  rw [mapIdxCtx_getElem?]
+  by_cases h : i < l.length
+  · rw [if_pos h, hout i _ _ hi, List.getD_eq_getElem?_getD, List.getElem?_eq_getElem h]
+    simp
+  · rw [if_neg h]
+    exact (List.getElem?_eq_none (by omega)).symm
 
 end PM
